@@ -1068,6 +1068,7 @@ pub fn schedule(prop: Prop, tier: Tier) -> Vec<(&'static str, u64)> {
             ("dup", if q { 1_200 } else { 15_000 }),
             ("big-union", if q { 200 } else { 3_000 }),
             ("big-conn", if q { 200 } else { 3_000 }),
+            ("big-two", if q { 80 } else { 1_500 }),
             ("closed-form", if q { 100 } else { 1_200 }),
         ],
         Prop::C02 | Prop::C03 => vec![
@@ -1083,6 +1084,7 @@ pub fn schedule(prop: Prop, tier: Tier) -> Vec<(&'static str, u64)> {
             ("dup", if q { 600 } else { 10_000 }),
             ("big-union", if q { 150 } else { 2_500 }),
             ("big-conn", if q { 150 } else { 2_500 }),
+            ("big-two", if q { 60 } else { 1_200 }),
             ("closed-form", if q { 60 } else { 1_000 }),
         ],
         Prop::C04 => vec![
@@ -1097,6 +1099,7 @@ pub fn schedule(prop: Prop, tier: Tier) -> Vec<(&'static str, u64)> {
             ("dup", if q { 400 } else { 8_000 }),
             ("big-union", if q { 150 } else { 3_000 }),
             ("big-conn", if q { 100 } else { 2_000 }),
+            ("big-two", if q { 50 } else { 1_000 }),
         ],
         Prop::C07 => vec![
             ("all2", 16),
